@@ -310,6 +310,7 @@ class Unit:
                     "wrap": o["wrap"].split(",") if o.get("wrap") else [],
                     "manual": d.manual,
                     "loopify": o.get("loopify"),
+                    "fuse": bool(o.get("fuse")),
                 })
         return {"items": items}
 
